@@ -42,6 +42,10 @@ pub fn run(sc: &Value) -> Value {
             backup(&archive, &srcm, &opts(), TestMonitor::arc()).await.unwrap();
         }
     });
+    if let Some(n) = sc["first_band"].as_u64() {
+        // the existing version has a four-digit id that the next one rolls over (b9999 -> b10000)
+        std::fs::rename(arch.join("b0000"), arch.join(format!("b{:04}", n))).unwrap();
+    }
     if sc["remove_first_version"].as_bool().unwrap_or(false) {
         // an archive that holds no version (any more), only blocks left behind
         std::fs::remove_dir_all(arch.join("b0000")).unwrap();
